@@ -78,6 +78,55 @@ def named(pats, prefix="g"):
     return [{"name": "%s%d_%s" % (prefix, i, p), "pattern": p} for i, p in enumerate(pats)]
 
 
+# patterns with reaction-centre bonds <g,h> (the parser switches to ITS mode for the whole pattern: every bond becomes a
+# pair); FGConfig(**dict) parses every pattern with a FRESH parser, and so does the harness for the model side
+ITS_POOL = ["C(=O)(<0,1>R)<1,0>R", "C<1,2>C", "C<2,1>O", "C(<0,1>O)<1,0>N", "R<1,0>C=O", "C<1,2>CC", "C<2,1>OC", "R<0,1>C",
+            "C(=O)<1,0>R", "C<1,2>C<2,1>C", "RC(<0,1>O)<1,0>N", "C<1,0>O", "C=O<0,1>R"]
+ITS_ORDINARY = ["C=O", "RC=O", "RC(=O)R", "CO", "CC", "RC", "CCO", "CN", "C(=O)O", "RC(=O)OR", "CCC", "C=C"]
+
+STAR_ENDS = ["O", "N", "S", "Cl", "F", "C", "Br"]
+
+
+def star_pattern(arms, order=None):
+    """a carbon centre with the given arms (each arm a string such as 'CO'), written with the arms in the given order"""
+    arms = list(arms) if order is None else [arms[i] for i in order]
+    return "C" + "".join("(%s)" % a for a in arms[:-1]) + arms[-1]
+
+
+def star_family(rng):
+    """a star with 2-3 equally labelled arms (CH2 groups) that END differently, and sub-patterns of it (one arm shortened,
+    one arm end replaced by a wildcard, one arm dropped), every pattern written with its arms in its own random order:
+    recognising the sub-pattern relation needs a swap of equally labelled neighbours of the centre"""
+    k = rng.choice([2, 3, 3])
+    ends = rng.sample(STAR_ENDS, k)
+    arms = ["C" + e for e in ends]
+    if rng.random() < 0.3:
+        arms[rng.randrange(k)] = "CC" + ends[0]                    # a longer arm
+
+    def written(a):
+        order = list(range(len(a)))
+        rng.shuffle(order)
+        return star_pattern(a, order)
+    pats = [written(arms)]
+    i = rng.randrange(k)
+    short = list(arms)
+    short[i] = "C"                                                  # one arm shortened to its CH2
+    pats.append(written(short))
+    j = rng.randrange(k)
+    wild = list(arms)
+    wild[j] = "CR"                                                  # one arm end replaced by the wildcard
+    pats.append(written(wild))
+    if k == 3 and rng.random() < 0.7:
+        t0 = rng.randrange(k)
+        pats.append(written([a for t, a in enumerate(arms) if t != t0]))
+    if rng.random() < 0.5:
+        pats.append(written(["C"] * k))                             # the bare star
+    pats += rng.sample(["CC", "RC", "CO", "CN", "CS", "CCC", "C"], rng.randint(0, 2))
+    pats = list(dict.fromkeys(pats))
+    rng.shuffle(pats)
+    return named(pats, "s")
+
+
 # small patterns that are useful as anti-patterns
 ANTI_POOL = ["CC(O)O", "RC(=O)R", "C=O", "COH", "CCC", "C1CC1", "RC(=O)O", "OO", "CN", "RCO", "C(O)O", "RC(=O)OR", "CCl"]
 
@@ -637,6 +686,129 @@ def same_names_variant(rng, specs):
                 t["anti_pattern"] = rng.sample(ANTI_POOL, 1)
         out.append(t)
     return out
+
+
+# ------------------------------------------------------------------------------------------
+# in-place edits of a molecule between two get() calls on the same FGQuery object
+
+def apply_edits(g, edits):
+    """modify the networkx graph g IN PLACE"""
+    for e in edits:
+        k = e[0]
+        if k == "sym":
+            g.nodes[e[1]]["symbol"] = e[2]
+        elif k == "bond":
+            g.edges[e[1], e[2]]["bond"] = e[3]
+        elif k == "add":
+            g.add_node(e[1], symbol=e[2])
+            g.add_edge(e[3], e[1], bond=e[4])
+        elif k == "del_node":
+            g.remove_node(e[1])
+        elif k == "del_edge":
+            g.remove_edge(e[1], e[2])
+        elif k == "add_edge":
+            g.add_edge(e[1], e[2], bond=e[3])
+        else:
+            raise ValueError(k)
+
+
+def rand_edits(rng, g):
+    """1-2 edits of g (not applied): symbol change / bond order change (node and edge counts stay), add an atom, remove a leaf,
+    remove or add a bond"""
+    h = gens.copy_exact(g)
+    out = []
+    for _ in range(rng.choice([1, 1, 2])):
+        nodes = list(h.nodes)
+        if not nodes:
+            break
+        kinds = ["sym", "sym", "bond", "add", "del_node", "del_edge", "add_edge"]
+        rng.shuffle(kinds)
+        for k in kinds:
+            e = None
+            if k == "sym":
+                n = rng.choice(nodes)
+                new = rng.choice([x for x in ["C", "O", "N", "S", "Cl"] if x != h.nodes[n].get("symbol")])
+                e = ("sym", n, new)
+            elif k == "bond" and h.number_of_edges():
+                u, v = rng.choice(list(h.edges))
+                o = h.edges[u, v]["bond"]
+                e = ("bond", u, v, rng.choice([x for x in (1, 2, 3) if x != o]))
+            elif k == "add":
+                e = ("add", max(nodes) + rng.choice([1, 1, 3]), rng.choice(["O", "N", "C", "S", "Cl"]), rng.choice(nodes), rng.choice([1, 1, 2]))
+            elif k == "del_node" and len(nodes) > 1:
+                leaves = [n for n in nodes if h.degree(n) <= 1]
+                if leaves:
+                    e = ("del_node", rng.choice(leaves))
+            elif k == "del_edge" and h.number_of_edges():
+                u, v = rng.choice(list(h.edges))
+                e = ("del_edge", u, v)
+            elif k == "add_edge" and len(nodes) > 2:
+                u, v = rng.sample(nodes, 2)
+                if not h.has_edge(u, v):
+                    e = ("add_edge", u, v, 1)
+            if e is not None:
+                apply_edits(h, [e])
+                out.append(list(e))
+                break
+    return out
+
+
+def play(events, g0, getter=None):
+    """run a sequence of events on graph OBJECTS: {"op": "get", "obj": name} | {"op": "edit", "obj": name, "edits": [...]} |
+    {"op": "copy", "src": name, "dst": name}; the object "g" starts as a copy of g0.  getter(graph) answers a get
+    (None: only record).  -> list of (contents of the object at the time of the get, answer)"""
+    objs = {"g": gens.copy_exact(g0)}
+    out = []
+    for ev in events:
+        if ev["op"] == "get":
+            G = objs[ev["obj"]]
+            snap = gens.copy_exact(G)
+            ans = None
+            if getter is not None:
+                ans = getter(G)
+                if not gens.graphs_identical(G, snap):
+                    ans = ("MUTATED", ans)
+            out.append((snap, ans))
+        elif ev["op"] == "edit":
+            apply_edits(objs[ev["obj"]], [tuple(e) for e in ev["edits"]])
+        elif ev["op"] == "copy":
+            objs[ev["dst"]] = gens.copy_exact(objs[ev["src"]])
+        else:
+            raise ValueError(ev["op"])
+    return out
+
+
+def run_editseq(specs, req_h, g0, events):
+    """ONE FGQuery object for the whole sequence -> list of answers (one per get)"""
+    try:
+        q = make_query(specs, req_h)
+    except (AssertionError, KeyError, IndexError, ValueError, TypeError) as e:
+        return [_exc(e)] * sum(1 for ev in events if ev["op"] == "get")
+
+    def getter(G):
+        try:
+            r = q.get(G)
+            return ("ok", [(n, [int(i) for i in ids]) for n, ids in r])
+        except (AssertionError, KeyError, IndexError, ValueError, TypeError) as e:
+            return _exc(e)
+    return [a for _, a in play(events, g0, getter)]
+
+
+def rand_editseq(rng, g):
+    """get(g), edit g in place, get(g)  |  ... with a second object h of equal contents asked in between"""
+    ed = rand_edits(rng, g)
+    shape = rng.choice(["g,edit,g", "g,edit,g", "g,edit,h,g", "g,h,edit,g", "g,edit,g,edit,g"])
+    G, E = {"op": "get", "obj": "g"}, {"op": "edit", "obj": "g", "edits": ed}
+    if shape == "g,edit,g":
+        return [G, E, G]
+    if shape == "g,edit,h,g":
+        return [G, E, {"op": "copy", "src": "g", "dst": "h"}, {"op": "get", "obj": "h"}, G]
+    if shape == "g,h,edit,g":
+        # h gets the contents g will have AFTER the edit, is asked first, then g is edited into the same contents
+        return [G, {"op": "copy", "src": "g", "dst": "h"}, {"op": "edit", "obj": "h", "edits": ed}, {"op": "get", "obj": "h"}, E, G]
+    h2 = gens.copy_exact(g)
+    apply_edits(h2, [tuple(e) for e in ed])
+    return [G, E, G, {"op": "edit", "obj": "g", "edits": rand_edits(rng, h2)}, G]
 
 
 # ------------------------------------------------------------------------------------------
